@@ -130,6 +130,9 @@ def gen_cases(ck, rng, quick):
         cases.append(dict(kind="scaled", r=r, lines=["call setScaledValue %s %d" % (b, r)]))
     fl = [0x00000000, 0x80000000, 0x3f800000, 0xbf800000, 0x3f7ffe00, 0x3f7ffe01, 0x3f7ffdff, 0xbf800001, 0x7f800000, 0xff800000,
           0x00000001, 0x80000001, 0x007fffff, 0x7f7fffff, 0xff7fffff, 0x3f000000, 0x37800000, 0x37000000, 0xb7000000, 0x477fff00]
+    # every float within 1024 ulps of the case-split boundaries of normalizedToScaled (+-NORMALIZED_VALUE_MAX, +-1.0, +-0.5 ulp of a raw step)
+    for centre in (0x3f7ffe00, 0x3f800000, 0xbf7ffe00, 0xbf800000, 0x3f7fff00, 0xbf7fff00):
+        fl += list(range(centre - 1024, centre + 1025))
     for _ in range(3000 if quick else 60000):
         w = rng.below(2 ** 32)
         if rng.chance(1, 2):    # concentrate on [-1.01, 1.01]
@@ -200,15 +203,21 @@ def run(ck):
         ck.fail("correspondence", "model-build", "extracted model does not build: %s" % str(e)[:300], {"theorem": "extraction"})
     cases = gen_cases(ck, rng, quick)
     lines = [l for c in cases for l in c["lines"]]
-    rc, cout, cerr = run_lines(hexe, lines)
-    if rc != 0 or len(cout) != len(lines):
-        site = "unknown"
-        for l in cerr.splitlines():
-            if "ERROR: AddressSanitizer" in l or "runtime error" in l:
-                site = l.strip()[:200]
-                break
-        bad = lines[len(cout)] if len(cout) < len(lines) else "?"
-        ck.fail("input", "crash:h_time:" + site.split(" on ")[0][-60:], "implementation aborted on: %s (%s)" % (bad, site), {"script": [bad], "stderr": cerr[-2000:]})
+    def run_c(lines, timeout=600, counted=True):
+        """run the implementation harness; a sanitizer abort / crash is a failing input (the line it stopped on)"""
+        rc, out, err = run_lines(hexe, lines, timeout)
+        if rc != 0 or (counted and len(out) != len(lines)):
+            site = "unknown"
+            for l in err.splitlines():
+                if "ERROR: AddressSanitizer" in l or "runtime error" in l:
+                    site = l.strip()[:200]
+                    break
+            bad = lines[len(out)] if counted and len(out) < len(lines) else lines[-1]
+            ck.fail("input", "crash:h_time:" + site.split(" on ")[0][-60:], "implementation aborted on: %s (%s)" % (bad, site), {"script": [bad], "stderr": err[-2000:]})
+            return None
+        return out
+    cout = run_c(lines)
+    if cout is None:
         return
     mout = None
     if mexe:
@@ -228,7 +237,9 @@ def run(ck):
             nb = c["out"][-1].split()[0]
             c["follow"] = ["call %s %s -" % (g, nb) for g in c["getters"]]
             follow += c["follow"]
-    rc, fout, ferr = run_lines(hexe, follow)
+    fout = run_c(follow)
+    if fout is None:
+        return
     fmout = None
     if mexe and mout is not None:
         _, fmout, _ = run_lines(mexe, follow)
@@ -314,7 +325,9 @@ def run(ck):
         elif c["kind"] == "scaled":
             l3.append("call getScaledValue %s -" % c["out"][0].split()[0])
             idx.append(c)
-    rc, o3, e3 = run_lines(hexe, l3)
+    o3 = run_c(l3)
+    if o3 is None:
+        return
     m3 = run_lines(mexe, l3)[1] if mexe and mout is not None else o3
     for c, l, a, b in zip(idx, l3, o3, m3):
         ck.evaluations += 1
@@ -335,7 +348,9 @@ def run(ck):
     else:
         sw.append("secs 946684800 4102444800 1")
         sw.append("floats 0 4294967296 1")
-    rc, so, se = run_lines(hexe, sw, timeout=3600)
+    so = run_c(sw, timeout=3600, counted=False)
+    if so is None:
+        return
     for l, o in zip(sw, [x for x in so if x.startswith("done")]):
         n, b = int(o.split()[1]), int(o.split()[2])
         ck.evaluations += n
